@@ -1219,3 +1219,120 @@ def constructions(facts, adt, variant=None, crates=None):
                         and (variant is None or s["rv"]["variant"] == variant):
                     out.append((fn, b, s, dict(zip(s["rv"]["fields"], s["rv"]["ops"]))))
     return out
+
+
+# --------------------------------------------------------------------------- MIR inlining (robustness to helper extraction)
+
+def _shift_place(p, off, bmap=None):
+    q = {"l": p["l"] + off, "p": [(("[_%d]" % (int(e[2:-1]) + off)) if re.fullmatch(r"\[_\d+\]", e) else e) for e in p["p"]]}
+    return q
+
+
+def _shift_op(o, off):
+    if o is None:
+        return o
+    if o.get("k") in ("copy", "move"):
+        q = dict(o)
+        q.update(_shift_place(o, off))
+        return q
+    return o
+
+
+def _shift_rv(rv, off):
+    rv = dict(rv)
+    for k in ("op", "a", "b"):
+        if k in rv and isinstance(rv[k], dict):
+            rv[k] = _shift_op(rv[k], off)
+    if "place" in rv:
+        rv["place"] = _shift_place(rv["place"], off)
+    if "ops" in rv:
+        rv["ops"] = [_shift_op(o, off) for o in rv["ops"]]
+    return rv
+
+
+def inline_calls(facts, fn, should_inline, depth=2):
+    """A copy of fn in which calls to crate-local callees accepted by should_inline(callee Fn) are replaced by the
+    callee's body (locals and blocks renumbered, parameters bound to the arguments, returns turned into gotos).
+    Rules written over one function then see through helper methods extracted from it."""
+    if depth <= 0:
+        return fn
+    j = fn.j
+    blocks = [json.loads(json.dumps(b)) for b in j["blocks"]]
+    locals_ = list(j["locals"])
+    names = list(j["names"])
+    changed = False
+    nb = len(blocks)
+    for bi in range(nb):
+        t = blocks[bi]["term"]
+        if t["k"] != "call" or t.get("target") is None:
+            continue
+        g = facts.fns.get(t["callee"])
+        if g is None or g.kind == "Closure" or g is fn or not should_inline(g) or len(t["args"]) != g.arg_count:
+            continue
+        if any(b["term"]["k"] == "yield" for b in g.blocks):
+            continue
+        g = inline_calls(facts, g, should_inline, depth - 1)
+        nested = getattr(g, "inlined_paths", set())
+        changed = True
+        loff = len(locals_)
+        boff = len(blocks)
+        locals_ += list(g.locals)
+        for nme in g.j.get("names", []):
+            names.append({"name": nme["name"], "place": _shift_place(nme["place"], loff)})
+        unwind = t.get("unwind")
+        for gb in g.blocks:
+            nbk = {"cleanup": gb["cleanup"], "stmts": [], "term": None}
+            for s in gb["stmts"]:
+                s2 = dict(s)
+                s2["lhs"] = _shift_place(s["lhs"], loff)
+                if "rv" in s2:
+                    s2["rv"] = _shift_rv(s["rv"], loff)
+                nbk["stmts"].append(s2)
+            gt = dict(gb["term"])
+            k = gt["k"]
+            for key in ("target", "otherwise", "drop"):
+                if isinstance(gt.get(key), int):
+                    gt[key] = gt[key] + boff
+            if k == "switch":
+                gt["targets"] = [[v, d + boff] for v, d in gt["targets"]]
+                gt["discr"] = _shift_op(gt["discr"], loff)
+            if isinstance(gt.get("unwind"), int):
+                gt["unwind"] = gt["unwind"] + boff
+            elif gt.get("unwind") == "continue" and isinstance(unwind, int):
+                gt["unwind"] = unwind
+            if k in ("drop",):
+                gt["place"] = _shift_place(gt["place"], loff)
+            if k == "call":
+                gt["args"] = [_shift_op(a, loff) for a in gt["args"]]
+                if "dest" in gt:
+                    gt["dest"] = _shift_place(gt["dest"], loff)
+                if "func" in gt:
+                    gt["func"] = _shift_op(gt["func"], loff)
+            if k == "assert":
+                gt["cond"] = _shift_op(gt["cond"], loff)
+            if k == "return":
+                nbk["stmts"].append({"k": "assign", "lhs": t["dest"], "rv": {"k": "use", "op": {"k": "move", "l": loff, "p": []}},
+                                     "span": gt.get("span", "")})
+                gt = {"k": "goto", "target": t["target"], "span": gt.get("span", "")}
+            if k == "resume":
+                gt = {"k": "goto", "target": unwind, "span": gt.get("span", "")} if isinstance(unwind, int) else gt
+            nbk["term"] = gt
+            blocks.append(nbk)
+        # bind parameters and jump into the callee
+        for i, a in enumerate(t["args"]):
+            blocks[bi]["stmts"].append({"k": "assign", "lhs": {"l": loff + 1 + i, "p": []}, "rv": {"k": "use", "op": a}, "span": t.get("span", "")})
+        blocks[bi]["term"] = {"k": "goto", "target": boff, "span": t.get("span", ""), "inlined": g.path}
+    if not changed:
+        return fn
+    nj = dict(j)
+    nj["blocks"] = blocks
+    nj["locals"] = locals_
+    nj["names"] = names
+    nf = Fn(nj, fn.crate)
+    nf.inlined = True
+    nf.inlined_paths = set(getattr(fn, "inlined_paths", set()))
+    for b in blocks:
+        if b["term"].get("inlined"):
+            nf.inlined_paths.add(b["term"]["inlined"])
+            g = facts.fns.get(b["term"]["inlined"])
+    return nf
